@@ -5,8 +5,8 @@
 EXTENDS DistLawsOps, TLC, Json
 CONSTANT Tier
 VARIABLE cs
-Init == cs \in LawCases(Tier)
+Init == cs \in {<<c[1], c[2], <<0, 0>> >> : c \in LawCases(Tier)} \cup ExtremeCases
 Next == UNCHANGED cs
 Spec == Init /\ [][Next]_cs
-Emit == PrintT(<<"BEH", ToJson([fam |-> cs[1], cl |-> cs[2]])>>)
+Emit == PrintT(<<"BEH", ToJson([fam |-> cs[1], cl |-> cs[2], ext |-> cs[3]])>>)
 =============================================================================
